@@ -165,9 +165,9 @@ pub proof fn lemma_pos_int_path(i: int)
 pub proof fn lemma_sproper_two(s: &SExp)
     requires sproper(*s) matches Some(x) && x.len() == 2
     ensures ({ let x = sproper(*s)->Some_0; tv(*s) == Tree::Pair(Box::new(tv(x[0])), Box::new(Tree::Pair(Box::new(tv(x[1])), Box::new(tnil())))) && tsize(tv(x[1])) < tsize(tv(*s))
-        && (cexpr(*s) && !is_op(tv(x[0]), 1) ==> cexpr(x[1])) })
+        && (cexpr(*s) && !is_op(tv(x[0]), 1) ==> cexpr(x[1])) && (cshape(*s) && !is_op(tv(x[0]), 1) ==> cshape(x[1])) })
 {
-    reveal_with_fuel(sproper, 4); reveal_with_fuel(clist, 3); reveal_with_fuel(tsize, 3);
+    reveal_with_fuel(sproper, 4); reveal_with_fuel(clist, 3); reveal_with_fuel(clshape, 3); reveal_with_fuel(tsize, 3);
     assert(tv(*s) != tnil());
     match s {
         SExp::Cons(_, h, r) => {
@@ -226,13 +226,14 @@ pub proof fn lemma_step(t0: Tree, tb: Tree, tcmd: Tree, targ: Tree, target: int)
         }
     }
 }
-//@ note brief_path_selection_single (cl23+): a chain (f (r (f ... N))) over a path N is replaced by the single path that the chain selects: the result has the same value in every environment
+//@ note brief_path_selection_single (cl23+): a chain (f (r (f ... N))) over a number N is replaced by the single path that the chain selects when N >= 1 and left alone otherwise (finding F43): the result has the same value in every environment, for numbers of any sign
 //@ extract fn brief_path_selection_single from src/compiler/optimize/brief.rs
 //@ canary rest_as_first @<if !is_first {>@ => @<if is_first {>@
-//@ replace R48 @<while let Some(lst) = body.proper_list() {>@ => @<loop invariant verif_inv(verif_t0, tv(*body), bi(target_path)), bi(target_path) >= 1, found_stack as int + tsize(tv(*body)) <= tsize(verif_t0), 0 <= found_stack, tsize(verif_t0) < 0x7fffffff, (found_stack > 0 || body == orig_body), verif_t0 == tv(*orig_body), (*body is Cons || found_stack > 0) ==> cexpr_r(&*body), found_stack > 0 ==> *orig_body is Cons decreases tsize(tv(*body)) { let verif_pl = body.proper_list(); if verif_pl.is_none() { break; } let lst = verif_pl.unwrap();>@
+//@ canary numbers_below_one_composed @<SExp::Integer(_l, i) if *i >= bi_one() => Some(i.clone()),>@ => @<SExp::Integer(_l, i) => Some(i.clone()),>@
+//@ replace R48 @<while let Some(lst) = body.proper_list() {>@ => @<loop invariant verif_inv(verif_t0, tv(*body), bi(target_path)), bi(target_path) >= 1, found_stack as int + tsize(tv(*body)) <= tsize(verif_t0), 0 <= found_stack, tsize(verif_t0) < 0x7fffffff, (found_stack > 0 || body == orig_body), verif_t0 == tv(*orig_body), (*body is Cons || found_stack > 0) ==> cshape_r(&*body), found_stack > 0 ==> *orig_body is Cons decreases tsize(tv(*body)) { let verif_pl = body.proper_list(); if verif_pl.is_none() { break; } let lst = verif_pl.unwrap();>@
 //@ replace R49 @<if let [cmd, arg] = &lst[..] {>@ => @<if lst.len() == 2 { let cmd = &lst[0]; let arg = &lst[1]; proof { lemma_sproper_two(&*body); lemma_step(verif_t0, tvr(&*body), tvr(cmd), tvr(arg), bi(target_path)); }>@
 //@ sig r
-    requires tsize(tv(*body)) < 0x7fffffff, *body is Cons ==> cexpr(*body)
+    requires tsize(tv(*body)) < 0x7fffffff, *body is Cons ==> cshape(*body)
     ensures r.0 ==> same_value(tv(*r.1), tv(*body)) && *body is Cons, !r.0 ==> r.1 == body
 //@ after stmt @<let mut target_path = bi_one();>@
     let ghost verif_t0 = tvr(&*body);
@@ -320,6 +321,8 @@ pub open spec fn rebuilt_ok(e: Tree, x: Seq<SExp>, i: int) -> bool {
 //@ replace R45 @<for f in lst.iter().rev() {>@ => @<let mut verif_i: usize = lst.len(); while verif_i > 0 invariant verif_i <= lst.len(), lst@ == verif_x, verif_x.len() >= 2, rebuilt_ok(tv(*end), verif_x, verif_i as int), forall|k: int| 1 <= k < verif_x.len() ==> cexpr(#[trigger] verif_x[k]), !(verif_x[0] is Cons), forall|k: int| 0 <= k < verif_x.len() ==> tsize(tv(#[trigger] verif_x[k])) < tsize(tv(*body)), tsize(tv(*body)) < 0x7fffffff decreases verif_i { verif_i = verif_i - 1; let f = &lst[verif_i]; let ghost verif_end0 = tvr(&*end);>@
 //@ sigfile r contracts/brief_path_selection.sig
     decreases tsize(tv(*body))
+//@ before stmt @<let (changed, new_body) = brief_path_selection_single(body.clone());>@
+    proof { lemma_cexpr_shape(&*body); }
 //@ before stmt @<let mut end = Rc::new(SExp::Nil(body.loc()));>@
         let ghost verif_x = lst@;
         proof { lemma_sproper_tree(&*body); }
